@@ -28,17 +28,16 @@ REAL_GROUPS = [("annotated", "o_annotated.txt"), ("symbols", "o_symbols.txt"), (
                ("annotated,base:2,group:3", "o_annotated2.txt")]
 
 
-def generated_in_main_file():
-    """True once the lead's tools/translate.py emits the c10_ tables into Gen/Generated.v"""
-    try:
-        return "c10_uses" in open(os.path.join(vlib.VERIF, "tools", "translate.py")).read()
-    except OSError:
-        return False
+def standalone_tables():
+    """Model/C10Tables.v names the generated module: until tools/translate.py appends translate_c10.generate() to
+    Gen/Generated.v (then C10Tables.v points there), this module writes Gen/GeneratedC10.v itself on every run"""
+    t = open(os.path.join(vlib.COQ, "Model", "C10Tables.v")).read()
+    return "Gen.GeneratedC10" in vlib.strip_comments(t)
 
 
 def setup():
     os.makedirs(SCRATCH, exist_ok=True)
-    if not generated_in_main_file():
+    if standalone_tables():
         translate_c10.write_standalone(vlib.REPO, GEN_V)
 
 
@@ -268,7 +267,7 @@ def stream_inprocess(chk, cases, lines_of, bins, K, stream, what_of, replay_of, 
             msgs = msgs + ["alone, twice: %r vs %r" % (alone[0][:80], alone[1][:80])]
         rep = replay_of(c)
         rep.update({"kind": "in-process", "stream": stream, "observations": msgs, "K": K})
-        texts = diff_texts(bins["debug"] + "/determ", verbose_line_of(c))
+        texts = diff_texts(bins["debug"] + "/determ", verbose_line_of(c)) if len(chk.violations) < 8 else []
         if len(texts) >= 2:
             rep["difference"] = first_difference(texts[0], texts[1])
         chk.violation("%s: %s" % (what_of(c), msgs[0]), rep)
@@ -495,12 +494,11 @@ def inventory_report(chk):
 
 def run(chk):
     chk.rule = RULE
-    setup()
     try:
-        inv = inventory_report(chk)
-    except Exception as e:
+        setup()
+        inventory_report(chk)
+    except Exception as e:   # the scanner met a construct it cannot classify: the tie to the source is broken (the stale tables stay)
         chk.violation("the C10 inventory scan cannot read the current source: %r" % (e,), {"kind": "inventory", "error": repr(e)}, found=False)
-        inv = None
     chk.prove()
     quick = chk.tier == "quick"
     K = 4 if quick else 32
